@@ -23,14 +23,17 @@ from .. import core, molgen
 from ..gen import gen_bitlayout, gen_periodic, gen_query
 
 LEVEL = 'proof'
-LEVEL_TEXT = ('The claim "both matcher configurations return the same mappings" is closed by theorems over the executable model: the '
-              'mask test on the encoded words equals the reference comparison `query_atom == atom` / `query_bond == bond` for ALL '
-              'query atoms, atoms and bonds of the documented domain (no bound, no sampling), the closure-counter test equals the '
-              'closure-set test, and field ranges are disjoint; the model is tied to the source by regenerated literals and by '
-              'differential execution of every encoder field exhaustively and of both real paths on generated (query, molecule) '
-              'pairs. Proof is the right level because the quantifier (all elements x charges x isotope offsets x counts x ring '
-              'sizes, all pairs) is closed by the theorems, not sampled; the documented gaps of the layout are excluded by an explicit '
-              'domain predicate, kept visible as false full statements with witnesses, and reported as known findings.')
+LEVEL_TEXT = ('The claim "both matcher configurations return the same mappings" is a theorem about the executable models the driver '
+              'runs: for ALL well-formed queries and molecules of the documented domain, all target-component lists, scopes and both '
+              'automorphism_filter settings, the model of the accelerated path (both encoders, the .pyx matcher, the shared glue) neither '
+              'raises nor differs from the model of the reference path (C07 matcher with C08 comparisons): same mappings, same order '
+              '(cython_search_eq_python_search). Its parts: the mask test on the encoded words equals `query_atom == atom` / '
+              '`query_bond == bond` for all atoms and bonds, the closure counter equals the closure-set test, the buffer layouts, both '
+              'loops are one generic depth-first search. The models are tied to the source by regenerated literals and by differential '
+              'execution of every encoder field exhaustively and of both real paths on generated (query, molecule) pairs. Proof is the '
+              'right level because the quantifier (all elements x charges x isotope offsets x counts x ring sizes, all pairs) is closed '
+              'by the theorems, not sampled; the documented gaps of the layout are excluded by an explicit domain predicate, kept visible '
+              'as a false full statement with witnesses, and reported as known findings.')
 LEVEL_NOTE = ('Lean kernel; hand-written model validated by correspondence (not a proof about the Python/Cython text); gen_bitlayout, '
               'gen_periodic, gen_query translators; the compiled extension cannot be built here: `_isomorphism.pyx` runs through the '
               'pyx2py rendering (C integer semantics emulated), so C-level memory safety of the compiled artefact is outside; the stereo '
